@@ -44,6 +44,12 @@ selftest)
 	ensure
 	exec "$VERIF/bin/lncverif" -repo "$REPO" -verif "$VERIF" -selftest -property "${2:-}"
 	;;
+benignfuzz)
+	# behaviour-preserving transformation sweep over every source file (a checker self-test;
+	# every new finding is a false alarm). Optional argument: only files whose path contains it.
+	ensure
+	exec "$VERIF/bin/lncverif" -repo "$REPO" -verif "$VERIF" -benignfuzz -benignfuzz-file "${2:-}"
+	;;
 dump)
 	ensure
 	exec "$VERIF/bin/lncverif" -repo "$REPO" -verif "$VERIF" -dump "${2:?function}"
@@ -54,7 +60,7 @@ C[0-9][0-9])
 	exec "$VERIF/bin/lncverif" -repo "$REPO" -verif "$VERIF" -property "$1" -tier "$tier"
 	;;
 *)
-	echo "usage: $0 setup | Cxx quick|thorough | explain <replay> | selftest [Cxx] | dump <func>" >&2
+	echo "usage: $0 setup | Cxx quick|thorough | explain <replay> | selftest [Cxx] | benignfuzz [file] | dump <func>" >&2
 	exit 2
 	;;
 esac
